@@ -76,12 +76,17 @@ META.update({
          "level_text": "Exploration, exhaustive over vectors and (thorough) over all (lo,hi) range pairs; frame contents and error codes are sampled. The stubs and iretq run natively on the real CPU in ring 3.",
          "level_note": "Trusted: the 60-line delivery trampoline (irqsim.rs) that builds the frame exactly as SDM vol.3 6.14 describes, the raw-byte gate decoder. Limits: only same-privilege delivery, flags restricted to arithmetic/DF/ID bits."},
 })
+META.update({
+ "C20": {"engine": "vx-paging", "design_ref": "DESIGN.md §6 C20", "technique": "pure-function monitor through hook H3 (all 512 indices) + software-MMU fault-address monitor on live RecursivePageTable histories + constructor monitor under an emulated CR3",
+         "level_text": "Exploration with exhaustive index dimensions: (R,p4) exhaustive (thorough: (R,p4,p3)); the live part observes the addresses the real code dereferences in thousands of operations; the constructor is driven through every slot/CR3 class.",
+         "level_note": PAGING_NOTE + " Plus: the software MMU (softmmu.rs) and the trap monitor (emulated CR3)."},
+})
 NOT_APPLICABLE = {}
 ENGINES = [
  {"name": "vx-pure", "path": "harness/src/props/c03.rs..c08.rs, harness/src/gen.rs", "serves_properties": ["C03", "C04", "C05", "C06", "C07", "C08", "C15", "C19"],
   "kind_free_text": "boundary-biased generators + independent arithmetic oracles judging every call of the real crate functions, in overflow-checking and non-checking builds"},
 ]
-ENGINES.append({"name": "vx-paging", "path": "harness/src/props/paging.rs, harness/src/{simphys,hwwalk,refmodel}.rs", "serves_properties": ["C01", "C02", "C09", "C10"],
+ENGINES.append({"name": "vx-paging", "path": "harness/src/props/paging.rs, c20.rs, harness/src/{simphys,hwwalk,refmodel,softmmu}.rs", "serves_properties": ["C01", "C02", "C09", "C10", "C20"],
   "kind_free_text": "real mapper code over simulated physical memory; reference model + raw-memory walker + byte diff + allocator log after every call; fault injection by state forking"})
 ENGINES.append({"name": "vx-trap", "path": "harness/src/trapemu.rs, harness/src/props/c17.rs, c18.rs", "serves_properties": ["C11", "C12", "C14", "C16", "C17", "C18"],
   "kind_free_text": "SIGSEGV/SIGILL trap-and-emulate monitor: decodes the privileged instruction the crate really executed, logs operands, applies it to an emulated register file, resumes"})
